@@ -41,3 +41,6 @@ reg("C36", "exploration", "runtime monitor: recorded file-system histories on a 
 reg("C38", "exploration", "runtime monitor: frame/unframe round-trip through readers delivering 1..n bytes per Read + 16 classes of hostile frames followed by intact frames (no panic, error-or-message, no over/under-read)",
     "Messages written by the real HeaderFramer writer are read back by the real reader and compared as JSON values with ids compared exactly; damaged frames must produce errors and leave the stream positioned exactly after the declared length.",
     "Methods are non-empty UTF-8; top-level params/results are never the literal null.")
+reg("C18", "exploration", "runtime monitor: reference traversal by reflection (never ast.Walk) — expected Visit/Visit(nil) event stream with children in source order vs ast.Walk and ast.Inspect on parsed corpus/generated trees and on synthesised trees rooted at every node type",
+    "The oracle enumerates child nodes independently of walk.go; parsed trees are compared event by event, synthesised trees by per-parent child multisets and nil protocol; every node type of package ast must be observed.",
+    "Child = exported field holding an ast.Node (also inside StringLitEx/DomainTextLitEx/[]any parts); documented exceptions: shadow-entry FuncDecl exposes only Body, File.Name skipped without package clause. cl front-end trees are covered via C07's workload, not here.")
